@@ -390,19 +390,19 @@ def load_corpus():
     return out
 
 
-def shrink_tl(binary, case, still_bad, rounds=12):
-    """drop operations while the failure persists (each attempt re-runs the real code)"""
+def shrink_tl(binary, case, still_bad, rounds=10):
+    """drop operations while the failure persists; all single deletions of a round run concurrently on the real code"""
     cur = case
     for _ in range(rounds):
-        changed = False
-        n = len(cur["ops"])
-        for i in range(n - 1, -1, -1):
-            t = dict(cur, ops=cur["ops"][:i] + cur["ops"][i + 1:])
-            if len(t["ops"]) >= 1 and still_bad(t, vlib.run_harness(binary, [t], timeout=120)[0]):
-                cur, changed = t, True
-                break
-        if not changed:
+        cands = [dict(cur, ops=cur["ops"][:i] + cur["ops"][i + 1:]) for i in range(len(cur["ops"]) - 1, -1, -1)]
+        cands = [t for t in cands if t["ops"]]
+        if not cands:
             break
+        outs = vlib.run_harness(binary, cands, args=["64"], timeout=300)
+        nxt = next((t for t, o in zip(cands, outs) if still_bad(t, o)), None)
+        if nxt is None:
+            break
+        cur = nxt
     return cur
 
 
